@@ -18,6 +18,24 @@ CHECKS = {
     "C04": dict(cat="exploration", tech="differential runtime monitor vs memoised big-integer tree expansion",
                 text="Tree DAGs with sharing, every entry kind and hostile names; the seven checkout numbers compared with the reference expansion, each dimension on its own.",
                 note="trusted: generator + reference model", ref="4 C04"),
+    "C05": dict(cat="exploration", tech="runtime assertion of min(true,cap) on real counter code: boundary+random+width-narrowed exhaustive arithmetic, synthetic renderings, cap-straddling repositories, CPU-time and processed-tree monitors",
+                text="Three layers on the real code: arithmetic (boundary x boundary judged by python big ints, 10^6-10^8 random pairs/compositions vs a math/bits reference, all operand pairs of a go/ast width-narrowed copy), rendering of saturated fields for 8 thresholds, and generated repositories whose true values straddle 2^32 and 2^64 (bombs, >=4GiB declared-size blobs); linear time restated as trees-processed == distinct trees and CPU time <= 50x control under RLIMIT_CPU.",
+                note="trusted: python big-int oracle, math/bits reference; declared-size loose blobs stand in for real >4GiB blobs; narrowed-copy result is about a derived copy", ref="4 C05"),
+    "C06": dict(cat="exploration", tech="bounded-exhaustive option folds on the real CLI vs a selection model; differential match relation via public filter API",
+                text="Every selection-option sequence up to length 2 (quick) / 3 over a 16-option sub-alphabet (thorough) on two reference sets, plus random sequences up to length 8: '+' marks of --show-refs vs the last-match model; git.PrefixFilter/RegexpFilter vs startswith-at-boundary / re.fullmatch.",
+                note="trusted: selection model (vf/select.py); regexps restricted to the RE2/python common subset", ref="4 C06"),
+    "C07": dict(cat="exploration", tech="differential runtime monitor: tallies in JSON v1/v2 and table vs recursive tally model on generated refgroup forests",
+                text="Generated refgroup hierarchies (nesting to 20, implicit parents, unions, hostile symbols) x reference sets x selections x 3 output formats; every failure to produce a report is a violation.",
+                note="trusted: tally model; git config --list -z as ground truth of the configuration", ref="4 C07"),
+    "C08": dict(cat="exploration", tech="runtime monitor with git rev-parse as judge + witness-set oracle; listing order perturbed by git shim",
+                text="For every cited object (JSON v1 and table footnotes, raw bytes): reachable, right kind, member of the model's witness set, description resolves via git rev-parse to exactly that oid; --names=hash/none clauses; exotic root kinds emphasised.",
+                note="trusted: git rev-parse as the judge of resolvability; reference model witness sets", ref="4 C08"),
+    "C12": dict(cat="exploration", tech="runtime assertion of rounding/prefix/monotonicity clauses with two independent exact-arithmetic references",
+                text="FormatNumber on exhaustive neighbourhoods of all prefix boundaries / precision switches / band-edge ties plus 2*10^6 (quick) / 10^8 (thorough) stratified random values; every clause judged in integer arithmetic (Go math/big), boundary set re-judged by python Fractions.",
+                note="trusted: the two reference implementations", ref="4 C12"),
+    "C15": dict(cat="exploration", tech="differential runtime monitor: Repository.GetConfig and CLI tallies vs NUL-first parse of git config --list -z",
+                text="Generated configurations across system/global/local/worktree/include/command scopes with value-less, empty, multi-line and hostile values; API result and CLI tallies compared with what git itself reports.",
+                note="trusted: git config --list -z output parsed NUL-first; for value-less refgroup keys empty value or omission both accepted", ref="4 C15"),
 }
 
 NOT_APPLICABLE = {
